@@ -60,7 +60,7 @@ const (
 type Content struct {
 	Source      string           `yaml:"src,omitempty" json:"src,omitempty"`
 	Destination string           `yaml:"dst" json:"dst"`
-	Type        string           `yaml:"type,omitempty" json:"type,omitempty" jsonschema:"enum=symlink,enum=ghost,enum=config,enum=config|noreplace,enum=dir,enum=tree,enum=,default="`
+	Type        string           `yaml:"type,omitempty" json:"type,omitempty" jsonschema:"enum=file,enum=symlink,enum=ghost,enum=config,enum=config|noreplace,enum=config|missingok,enum=dir,enum=tree,enum=doc,enum=licence,enum=license,enum=readme,enum=,default="`
 	Packager    string           `yaml:"packager,omitempty" json:"packager,omitempty"`
 	FileInfo    *ContentFileInfo `yaml:"file_info,omitempty" json:"file_info,omitempty"`
 	Expand      bool             `yaml:"expand,omitempty" json:"expand,omitempty"`
